@@ -114,8 +114,9 @@ class _MultitaskGaussianLikelihoodBase(_GaussianLikelihoodBase):
         return function_dist.__class__(mean, covar, interleaved=function_dist._interleaved)
 
     def _shaped_noise_covar(
-        self, shape: torch.Size, add_noise: Optional[bool] = True, interleaved: bool = True, *params: Any, **kwargs: Any
+        self, shape: torch.Size, *params: Any, add_noise: Optional[bool] = True, interleaved: bool = True, **kwargs: Any
     ) -> LinearOperator:
+        # add_noise and interleaved are keyword-only: positional params are the (training) inputs that callers pass on
         if not self.has_task_noise:
             noise = ConstantDiagLinearOperator(self.noise, diag_shape=shape[-2] * self.num_tasks)
             return noise
